@@ -29,6 +29,9 @@ func init() {
 		// an inode released before the transaction ends is no longer dropped from the cache when the transaction
 		// aborts: what was changed in it in place survives the error reply
 		ruleT2(c, "C09.A13")
+		// a request the server is going to fail must not reach the journal as a transaction too large for it: the
+		// refusal is not traceless - the journal forgets how far the next COMMIT must flush
+		ruleM6(c, "C09.A14")
 	}
 }
 
